@@ -285,7 +285,8 @@ class Gen:
                     shown.append("[" + fld + "]")
             if failed:
                 # the variable list runs past the end of the file
-                vars_ += ["S%d$" % i for i in range(len(vars_), nv)]
+                # (string and numeric variables alike: nothing is left to read)
+                vars_ += [("S%d$" if r.random() < 0.5 else "N%d%%") % i for i in range(len(vars_), nv)]
                 hh.pos = len(data)
                 self.step("INPUT #%d, %s" % (n, ", ".join(vars_)), err=62)
                 self.features.add("input_past_end")
@@ -376,6 +377,11 @@ class Gen:
                     return
                 hh.fields = [(w1, "Q%dA$" % n), (w2, "Q%dB$" % n)]
                 self.step("FIELD #%d, %d AS Q%dA$, %d AS Q%dB$" % (n, w1, n, w2, n))
+                if r.random() < 0.4:
+                    # a second FIELD statement on the same handle: another view of the same record buffer, from its first byte
+                    hh.fields2 = [(w1 + w2, "Q%dC$" % n)]
+                    self.step("FIELD #%d, %d AS Q%dC$" % (n, w1 + w2, n))
+                    self.features.add("two_field_lists_on_one_handle")
                 return
             data = m.store[hh.name]
             if y < 0.55:
@@ -410,12 +416,16 @@ class Gen:
                 rec = r.choice(puts)
                 chunk = data[(rec - 1) * hh.rec_len: rec * hh.rec_len]
                 chunk += "\0" * (hh.rec_len - len(chunk))
-                pr = 'PRINT "G"; T%; ' + "; ".join('"["; %s; "]"' % v for w, v in hh.fields)
+                views = list(hh.fields)
                 parts = []
                 o = 0
                 for w, v in hh.fields:
                     parts.append(("[", chunk[o:o + w], "]"))
                     o += w
+                for w, v in (hh.__dict__.get("fields2") or []):
+                    views.append((w, v))
+                    parts.append(("[", chunk[0:w], "]"))
+                pr = 'PRINT "G"; T%; ' + "; ".join('"["; %s; "]"' % v for w, v in views)
                 self.step("GET #%d, %d" % (n, rec), ok_print=pr)
                 self.expect.append(("get", self.k, [p[1] for p in parts]))
                 self.features.add("get")
